@@ -16,6 +16,10 @@ structure DS where
   autogen : List Nat := []
   /-- transactions whose signature does not verify (`sig=bad`): refused by the verification stage of Play / Walk -/
   badsig : List Nat := []
+  /-- `walkrace`: the state after the two requests executed one at a time in the order A;B and in the order B;A, each with the
+  results of (A, B); `raced` commits to one of them -/
+  raceAB : St × String := ({}, "")
+  raceBA : St × String := ({}, "")
 deriving Inhabited
 
 def kvOf (ws : List String) : List (String × String) :=
@@ -167,6 +171,64 @@ def walkEnv (d : DS) (dest : Nat) : Env :=
     | _, _ => false
   { verifyEnv d with skipRepost := d.s.pool.filter onChain }
 
+-- ---------------------------------------------------------------- two requests in flight at once (`walkrace`)
+
+/-- a request of a race -/
+inductive RCall where
+  | walk (b : Nat) | play (b : Nat) | playminer (b : Nat) | dotx (t : Nat)
+deriving Repr, DecidableEq, Inhabited
+
+def parseRCall (s : String) : Option RCall :=
+  match s.splitOn ":" with
+  | [k, n] =>
+    match n.toNat? with
+    | some n =>
+      (match k with
+       | "walk" => some (.walk n) | "play" => some (.play n) | "playminer" => some (.playminer n) | "dotx" => some (.dotx n)
+       | _ => none)
+    | none => none
+  | _ => none
+
+/-- `isConfirmedOnCurrentChain` while the state machine is at block `cur` -/
+def confirmedOn (d : DS) (cur : Nat) (i : Nat) : Bool :=
+  match lookup d.l.C i, lookup d.l.B cur with
+  | some b, some hd =>
+    (match lookup d.l.B b with
+     | some hb => hb.inTrunk && hd.inTrunk && hb.height ≤ hd.height
+     | none => false)
+  | _, _ => false
+
+/-- the part of a request that runs under the state-machine lock. A walk rolls the pool back and, if it succeeds, owes the
+re-admission of what it rolled back (`recoverUnconfirmedTx` runs in a goroutine of its own after the call has returned): in
+the model a walk whose skip list is the whole pool, which re-admits nothing. Answer, and the transactions still owed. -/
+def raceLock (d : DS) (s : St) : RCall → St × String × List Nat
+  | .walk b =>
+    let (s', ok) := walk { verifyEnv d with skipRepost := s.pool } s (ledgerH d) b false
+    (s', if ok then "ok" else "fail", if ok then s.pool else [])
+  | .play b =>
+    let (s', r) := play (verifyEnv d) s (ledgerH d) (d.env.block b)
+    (s', if r == .ok then "ok" else "fail", [])
+  | .playminer b =>
+    let (s', r) := playForMiner d.env s (ledgerH d) (d.env.block b)
+    (s', if r == .ok then "ok" else "fail", [])
+  | .dotx t =>
+    let (s', r) := doTx d.env s (ledgerH d) t
+    (s', r.toString, [])
+
+/-- the owed re-admissions of one walk, run where the state machine is by then: a transaction the ledger records as confirmed
+on the chain the state machine is on is left out, the others are submitted again, oldest first -/
+def raceRecover (d : DS) (s : St) (l : List Nat) : St :=
+  (l.filter (fun i => !confirmedOn d s.pointer i)).foldl (fun st i => (doTx (verifyEnv d) st (ledgerH d) i).1) s
+
+/-- two requests one at a time: the lock sections in the given order, then the re-admissions in the order they were started.
+`swap`: the results are always reported as (A, B). -/
+def raceSeq (d : DS) (x y : RCall) (swap : Bool) : St × String × String :=
+  let (s1, r1, l1) := raceLock d d.s x
+  let (s2, r2, l2) := raceLock d s1 y
+  let s3 := raceRecover d (raceRecover d s2 l1) l2
+  let res := if swap then r2 ++ "," ++ r1 else r1 ++ "," ++ r2
+  (s3, res, s!"{res}/t{s3.pointer}/i{s3.irrev}/p{poolStr s3}")
+
 def step (d : DS) (line : String) : DS × String :=
   let ws := words line
   match ws with
@@ -268,6 +330,17 @@ def step (d : DS) (line : String) : DS × String :=
       | none =>
         let (s', r) := doTx d.env d.s (ledgerH d) (arg 1)
         ({ d with s := s' }, r.toString)
+    | "walkrace" =>
+      -- both one-at-a-time orders of the two requests; the state moves with `raced`
+      match (pos[0]?).bind parseRCall, (pos[1]?).bind parseRCall with
+      | some a, some b =>
+        let (sab, rab, dab) := raceSeq d a b false
+        let (sba, rba, dba) := raceSeq d b a true
+        ({ d with raceAB := (sab, rab), raceBA := (sba, rba) }, s!"ab={dab} ba={dba}")
+      | _, _ => (d, "bad-op")
+    | "raced" =>
+      let (s', r) := if pos[0]? == some "ba" then d.raceBA else d.raceAB
+      ({ d with s := s' }, r)
     | "play" =>
       let (s', r) := play (verifyEnv d) d.s (ledgerH d) (d.env.block (arg 0))
       ({ d with s := s' }, if r == .ok then "ok" else "fail")
